@@ -212,7 +212,9 @@ func hasPrefixAny(s string, ps ...string) bool {
 func ownerC19(l string) bool {
 	return hasPrefixAny(l, "restore-succeeds", "payload-roundtrip", "restored-machine-state", "restored-behaves-equal", "list-succeeds")
 }
-func ownerC02(l string) bool { return hasPrefixAny(l, "masterkeys-equal", "poly-") }
+func ownerC02(l string) bool {
+	return hasPrefixAny(l, "masterkeys-equal", "poly-", "keyring-from-one-distkey", "honest-step-succeeds")
+}
 func ownerC06(l string) bool {
 	return hasPrefixAny(l, "handover-only-signing-init", "signing-init-state", "idle-accepts-only-start", "start-", "restart-to-idle",
 		"finished-accepts-only-restart", "await-accepts-only-contributions", "no-double-count", "batch-binding", "collect-iff-t",
@@ -318,10 +320,17 @@ func init() {
 			fsmStep2(cr, g)
 		}
 	}}
-	checkDefs["C02"] = &checkDef{level: "model_checking", pkgs: []string{fsmPkg}, run: func(cr *CheckRun) {
+	checkDefs["C02"] = &checkDef{level: "model_checking", pkgs: []string{fsmPkg, airPkg}, run: func(cr *CheckRun) {
 		cr.owner = ownerC02
 		fsmCommon(cr, tierN(cr))
-		cr.explanation = "Hot-node half of C02: on every master-key announcement edge of the fixpoint, reaching state_dkg_master_key_collected requires all announced keys equal and (ghost bit) all announced polynomials equal to the retained one. Airgapped half: contract-level obligations (see DESIGN)."
+		cj := []Job{ceremonyJob("c02n2", 2, 2, nil, "announcements and keyrings"),
+			ceremonyJob("c02n3", 3, 2, map[string]string{"round2": "1", "t2": "3"}, "two rounds on the same machines (t=2, then t=3)")}
+		nat := []map[string]int{{}, {}}
+		if cr.Tier == "thorough" {
+			cj = append(cj, ceremonyJob("c02n3t3", 3, 3, map[string]string{"round2": "1", "t2": "2"}, "two rounds on the same machines (t=3, then t=2)"))
+		}
+		runCeremony(cr, cj, nat)
+		cr.explanation = "Hot-node half of C02: on every master-key announcement edge of the fixpoint, reaching state_dkg_master_key_collected requires all announced keys equal and (ghost bit) all announced polynomials equal to the retained one. Airgapped half (contract level, harness VF_Air_Ceremony): n real machines run the four DKG steps from their SSA over the kyber Pedersen-DKG contracts; every machine announces the same group key and the same polynomial, the announced key is the constant term of the announced polynomial, the stored keyring holds that polynomial and exactly the share of DistKeyShare(); with two rounds on the same machines every round id maps to its own keyring (loadBLSKeyring and GetBLSKeyrings, LevelDB iterator buffer reuse modelled). The same scenarios run natively with real kyber on every run. That the n shares lie on one polynomial is kyber's DKG correctness (contract)."
 	}}
 }
 
